@@ -98,6 +98,8 @@ struct State {
     raw: Vec<u8>,
     record_raw: bool,
     shutdown_seen: usize,
+    /// how many injected faults were actually returned to the code under test
+    faults_hit: usize,
     /// Reader stops consuming (a peer that neither reads nor writes).
     reader_frozen: bool,
 }
@@ -130,6 +132,7 @@ pub fn pipe(p: PipeParams) -> (PipeWriter, PipeReader, PipeHandle) {
         raw: Vec::new(),
         record_raw: true,
         shutdown_seen: 0,
+        faults_hit: 0,
         reader_frozen: false,
     };
     let h = PipeHandle(Arc::new(Mutex::new(st)));
@@ -210,6 +213,9 @@ impl PipeHandle {
     pub fn writer_closed(&self) -> bool {
         self.0.lock().unwrap().writer_closed
     }
+    pub fn faults_hit(&self) -> usize {
+        self.0.lock().unwrap().faults_hit
+    }
     pub fn flushes(&self) -> usize {
         self.0.lock().unwrap().flushes
     }
@@ -225,6 +231,7 @@ impl AsyncWrite for PipeWriter {
         for f in &s.faults {
             if let Fault::WriteErr { at } = f {
                 if s.accepted >= *at {
+                    s.faults_hit += 1;
                     return Poll::Ready(Err(ErrKind::BrokenPipe.to_io()));
                 }
                 limit = limit.min(*at - s.accepted);
@@ -278,14 +285,13 @@ impl AsyncWrite for PipeWriter {
         s.flushes += 1;
         s.log.push(Ev::Flush { t: Instant::now() });
         if s.faults.iter().any(|f| matches!(f, Fault::FlushErr { k: kk } if *kk == k)) {
+            s.faults_hit += 1;
             return Poll::Ready(Err(ErrKind::BrokenPipe.to_io()));
         }
-        for f in &s.faults {
-            if let Fault::WriteErr { at } = f {
-                if s.accepted >= *at {
-                    return Poll::Ready(Err(ErrKind::BrokenPipe.to_io()));
-                }
-            }
+        let broken = s.faults.iter().any(|f| matches!(f, Fault::WriteErr { at } if s.accepted >= *at));
+        if broken {
+            s.faults_hit += 1;
+            return Poll::Ready(Err(ErrKind::BrokenPipe.to_io()));
         }
         Poll::Ready(Ok(()))
     }
@@ -334,22 +340,32 @@ impl AsyncRead for PipeReader {
             return Poll::Pending;
         }
         let mut limit = usize::MAX;
+        let mut hit: Option<Option<ErrKind>> = None;
         for f in &s.faults {
             match f {
                 Fault::ReadEof { at } => {
                     if s.delivered >= *at {
-                        return Poll::Ready(Ok(()));
+                        hit = Some(None);
+                        break;
                     }
                     limit = limit.min(*at - s.delivered);
                 }
                 Fault::ReadErr { at, kind } => {
                     if s.delivered >= *at {
-                        return Poll::Ready(Err(kind.to_io()));
+                        hit = Some(Some(kind.clone()));
+                        break;
                     }
                     limit = limit.min(*at - s.delivered);
                 }
                 _ => {}
             }
+        }
+        if let Some(h) = hit {
+            s.faults_hit += 1;
+            return match h {
+                None => Poll::Ready(Ok(())),
+                Some(k) => Poll::Ready(Err(k.to_io())),
+            };
         }
         if buf.remaining() == 0 {
             return Poll::Ready(Ok(()));
